@@ -354,10 +354,15 @@ func (e *evaluator) lookup(rec any, f *spec.Field) (val any, key string, ok bool
 		return nil, key, true
 	case reflect.Value:
 		sf, ok := m.Type().FieldByName(key)
-		if !ok || !sf.IsExported() || len(sf.Index) != 1 {
+		if !ok || !sf.IsExported() {
 			return nil, key, true
 		}
-		return m.FieldByIndex(sf.Index).Interface(), key, true
+		// promoted fields are read like Go reads them; behind a nil embedded pointer there is nothing to read
+		fv, err := m.FieldByIndexErr(sf.Index)
+		if err != nil || !fv.CanInterface() {
+			return nil, key, true
+		}
+		return fv.Interface(), key, true
 	case map[string]any:
 		return m[key], key, true
 	case map[string]string:
